@@ -60,4 +60,54 @@ theorem chain_height_counterexample : ¬ FullStatementChainHeightIrrelevant := b
   revert this
   decide
 
+/-! ## exactly which executions are affected
+
+`checkStates` / `runTransactions` execute block `h` on top of the node's own chain, so the
+process-wide height is `h - 1` on every such replica.  Only `verifyStateAndReceipt` (situation
+"fork") executes a block while the local top is something else. -/
+
+def heightsOf (t : ForkTable) : List Nat := [t.p006, t.p007, t.p016, t.p018, t.p021, t.p023]
+
+/-- some activation height lies strictly above the lower and at or below the higher of the two tops -/
+def ActivationBetween (t : ForkTable) (g₁ g₂ : Nat) : Prop :=
+  ∃ b ∈ heightsOf t, min g₁ g₂ < b ∧ b ≤ max g₁ g₂
+
+theorem sameSide_of_no_activation_between (t : ForkTable) (g₁ g₂ : Nat) (h : ¬ ActivationBetween t g₁ g₂) :
+    SameSide t g₁ g₂ := by
+  have key : ∀ b ∈ heightsOf t, (g₁ ≥ b ↔ g₂ ≥ b) := by
+    intro b hb
+    have hn : ¬ (min g₁ g₂ < b ∧ b ≤ max g₁ g₂) := fun hc => h ⟨b, hb, hc⟩
+    omega
+  unfold SameSide
+  simp only [heightsOf, List.mem_cons, List.mem_nil_iff, or_false, forall_eq_or_imp, forall_eq] at key
+  exact key
+
+/-- all replicas that execute the block on top of their own chain (normal and casting path:
+    process height = header height − 1) agree, whatever iteration orders they pick -/
+theorem normal_path_replicas_agree (ρ₁ ρ₂ : Orders) (v₁ : OrdersValid ρ₁) (v₂ : OrdersValid ρ₂) (env : Env)
+    (t : ForkTable) (hd : Header) (rw : Option RewardIn) (ids : List Addr) (s : St) (txs : List Tx)
+    (hmap : ∀ r vs, rw = some r → r.validators = some vs → (vs.map Prod.fst).Nodup) :
+    execBlockAt ρ₁ env t (hd.height - 1) hd rw ids s txs = execBlockAt ρ₂ env t (hd.height - 1) hd rw ids s txs :=
+  chain_height_irrelevant_partial ρ₁ ρ₂ v₁ v₂ env t _ _
+    ⟨Iff.rfl, Iff.rfl, Iff.rfl, Iff.rfl, Iff.rfl, Iff.rfl⟩ hd rw ids s txs hmap
+
+/-- **Which executions the known finding touches.**  A replica whose process-wide height is `g`
+    (fork path) can disagree with the replicas on the normal path only if an activation height
+    lies between `g` and `header.Height − 1`. -/
+theorem affected_only_if_activation_between (ρ₁ ρ₂ : Orders) (v₁ : OrdersValid ρ₁) (v₂ : OrdersValid ρ₂) (env : Env)
+    (t : ForkTable) (g : Nat) (hd : Header) (rw : Option RewardIn) (ids : List Addr) (s : St) (txs : List Tx)
+    (hmap : ∀ r vs, rw = some r → r.validators = some vs → (vs.map Prod.fst).Nodup)
+    (hne : execBlockAt ρ₁ env t g hd rw ids s txs ≠ execBlockAt ρ₂ env t (hd.height - 1) hd rw ids s txs) :
+    ActivationBetween t g (hd.height - 1) := by
+  apply Classical.byContradiction
+  intro hno
+  exact hne (chain_height_irrelevant_partial ρ₁ ρ₂ v₁ v₂ env t g (hd.height - 1)
+    (sameSide_of_no_activation_between t g _ hno) hd rw ids s txs hmap)
+
+example : ActivationBetween devTable 15 (12 - 1) := ⟨12, by decide, by decide⟩
+example : ¬ ActivationBetween devTable 20 (14 - 1) := by
+  intro ⟨b, hb, h1, h2⟩
+  simp [heightsOf, devTable] at hb
+  rcases hb with rfl | rfl <;> omega
+
 end Rangers.Props.C01B
